@@ -265,6 +265,18 @@ def run_C20(chk):
             chk.report('two loads of the name %r: the factory was consulted `%s`; once, with exactly that name (never for UTC / fixed-offset names), then not again, gives `%s`' % (nm, b, a),
                        {'op': l, 'implementation': b, 'model': a}, sig='facnames')
         else: good += 1
+    # fixed_time_zone(offset) never reaches the factory, whatever the offset; bytes that do not parse are asked for once
+    extra = ['fixid %d' % o for o in (86400, -86400, 86401, -86401, 86460, -86460, 89999, -89999, 90000, 2**31, -2**31, 3600, 0)]
+    shipped = dict(T.shipped_zones())
+    ny = shipped['America/New_York']
+    extra += ['memcalls ' + hx(bb) for bb in (b'', b'\x00', b'garbage bytes that are no zone data at all', ny[:100], ny[:-9], leap_file(), leap_file_slim(), ny, shipped['UTC'] if 'UTC' in shipped else ny)]
+    mo_e = run_model(extra); io_e = run_lines(exe, extra, timeout=600)
+    for l, a, b in zip(extra, mo_e, io_e):
+        chk.cov['evaluations'] += 1
+        if b != a:
+            chk.report('`%s` = `%s`; the factory contract (never for fixed-offset zones, once per name whatever the bytes are worth) gives `%s`' % (l[:80], b, a),
+                       {'op': l[:400], 'implementation': b, 'model': a}, sig='factory fixid/memcalls')
+        else: good += 1
     # names that are already loaded (or have already failed) are loaded again by several threads while the zone map's
     # mutex is kept busy: the factory must not see any of them again
     env = dict(os.environ); env.update({'TZDIR': os.path.join(REPO, 'testdata/zoneinfo')}); env.update(SAN_ENV)
@@ -343,6 +355,8 @@ def run_C19(chk):
     put(os.path.join(zdir, 'trunc-footer-1'), ny[:-1])          # footer without its final newline
     put(os.path.join(zdir, 'trunc-footer-all'), ny[:ny.rfind(b'\n', 0, len(ny) - 1) + 1])   # only the newline that opens the footer
     put(os.path.join(zdir, 'trunc-footer-mid'), ny[:-9])
+    put(os.path.join(zdir, 'Fixed/UTC+05:00:00'), shipped['America/New_York'])     # must never be looked at: the name is resolved internally
+    put(os.path.join(zdir, 'UTC'), shipped['Asia/Kolkata'])
     put(os.path.join(zdir, 'leap'), leap_file())
     put(os.path.join(zdir, 'leap-slim'), leap_file_slim())
     put(os.path.join(zdir, 'empty'), b'')
@@ -365,7 +379,7 @@ def run_C19(chk):
     tzs = [None, b'', b'X', b':X', b'localtime', b':localtime', b'No/Such', b'::X', b'America/New_York']
     lts = [None, os.path.join(root, 'lt').encode(), os.path.join(root, 'nope').encode()]
     names = [b'America/New_York', b'Lisbon', os.path.join(root, 'abs/Kolkata').encode(), b'file:Lisbon', b'file:' + os.path.join(root, 'abs/Kolkata').encode(),
-             b'', b'adir', b'truncated', b'trunc-footer-1', b'trunc-footer-all', b'trunc-footer-mid', b'leap', b'leap-slim', b'empty', b':Lisbon', b'UTC', b'UTC0', b'Fixed/UTC+05:30:00', b'Fixed/UTC+25:00:00', b'Fixed/UTC-24:00:00', b'Fixed/UTC+24:00:00', b'Fixed/UTC-24:00:01', b'file:/America/New_York', b'file:/Lisbon', b'file:/X', b'Fixed/UTC+00:60:00', b'Fixed/UTC+01:00:0\x00', b'Fixed/UTC+0\x00:00:00', b'Fixed/UTC-00:90:00', b'Fixed/UTC+23:59:60', b'Fixed/UTC-23:59:61', b'Fixed/UTC+00:00:99', b'No/Such', b'file:', b'../zi/Lisbon',
+             b'', b'adir', b'truncated', b'trunc-footer-1', b'trunc-footer-all', b'trunc-footer-mid', b'leap', b'leap-slim', b'empty', b':Lisbon', b'UTC', b'UTC0', b'Fixed/UTC+05:30:00', b'Fixed/UTC+05:00:00', b'Fixed/UTC+25:00:00', b'Fixed/UTC-24:00:00', b'Fixed/UTC+24:00:00', b'Fixed/UTC-24:00:01', b'file:/America/New_York', b'file:/Lisbon', b'file:/X', b'Fixed/UTC+00:60:00', b'Fixed/UTC+01:00:0\x00', b'Fixed/UTC+0\x00:00:00', b'Fixed/UTC-00:90:00', b'Fixed/UTC+23:59:60', b'Fixed/UTC-23:59:61', b'Fixed/UTC+00:00:99', b'No/Such', b'file:', b'../zi/Lisbon',
              b'America/New_York\x00junk']
     lines = ['fsfile %s %s' % (hx(p), hx(d)) for p, d in files.items()]
     meta = [None] * len(lines)
